@@ -139,7 +139,7 @@ def gen_rollback_line(rng, size, where):
 def gen_lines(ctx):
     rng = ctx.rng
     lines, kinds = [], {}
-    n_small, n_real = (4000, 1500) if ctx.thorough else (270, 150)
+    n_small, n_real = (4000, 1500) if ctx.thorough else (270, 90)
     for j in range(n_small + n_real):
         size = rng.choice([1, 1, 2, 3, 5]) if j < n_small else 0
         where = ("first", "middle", "last")[j % 3]
@@ -152,11 +152,16 @@ def gen_lines(ctx):
 
 
 # ----------------------------------------------------------------------------- component: run
-def rollback_component(ctx, proved=True):
-    """returns (n_cases, direct_failures) and records violations in ctx"""
-    oracle = vlib.build_oracle(ctx, "replay")
+def build_harness(ctx):
     src = [os.path.join(vlib.HARNESS, "replay_harness.c"), os.path.join(vlib.REPO, "src/munged/hash.c")]
-    exe, err = vlib.cc(ctx, "c13replayh", src, extra=["-Wl,--wrap=time"], libs=["-lpthread"])
+    return vlib.cc(ctx, "c13replayh", src, extra=["-Wl,--wrap=time"], libs=["-lpthread"])
+
+
+def rollback_component(ctx, proved=True, built=None, oracle=None):
+    """returns (n_cases, direct_failures) and records violations in ctx"""
+    if oracle is None:
+        oracle = vlib.build_oracle(ctx, "replay")
+    exe, err = built if built is not None else build_harness(ctx)
     if exe is None:
         ctx.violation("replay harness does not build against /repo (replay.c/hash.c interface changed?): " + err[-500:],
                       {"obligation": "correspondence C13 roll-back (build)", "stderr": err}, found_input=False)
@@ -289,7 +294,7 @@ def rollback_live(ctx, cr, fails, mism, dist):
             mism.append(dict(case, diff="%s: %s" % (what, diff)))
         got = None if d is None else d["error_num"]
         if got != want:
-            fails.append(dict(case, why="%s: decode gives %s, expected %s (%s)" % (
+            fails.append(dict(case, key="live: " + what[:45], why="%s: decode gives %s, expected %s (%s)" % (
                 what, d and (d["error_num"], d["error_str"]), want, "Success" if want == 0 else "Replayed credential")))
             return False
         return True
@@ -312,7 +317,11 @@ def rollback_live(ctx, cr, fails, mism, dist):
                 pos = "alone"
             case = {"op": "live-rollback", "bucket_macs": macs, "chain_before": [macs[j] for j in sorted(live)],
                     "rolled_back": macs[idx], "position_in_chain": pos, "attempts": how,
-                    "cred_hex": cred.rstrip(b"\0").hex()}
+                    "cred_hex": cred.rstrip(b"\0").hex(), "daemon_key_hex": cr.d.key.hex(), "clock": cr.now,
+                    "bucket_creds_hex": [g[1].rstrip(b"\0").hex() for g in group],
+                    "how_to_replay": "start munged with this key and clock; decode the chain_before credentials; send a DEC_REQ for "
+                                     "cred_hex from a client that has shut down its receiving side (attempts S; for LS first an "
+                                     "ordinary decode whose answer is dropped, then retry=1 that way); decode cred_hex again"}
             _undeliverable(cr, cred, how)
             time.sleep(0.02)
             ctx.count(("live-rollback", pos, how, len(live)))
